@@ -223,6 +223,13 @@ def load(f, **options):  # type: (typing.IO, **typing.Any) -> canmatrix.CanMatri
                 
                 if is_j1939:
                     new_frame.arbitration_id.pgn = int(arb_id)
+                elif extended == 'X' and int(arb_id) == 0x40000000:
+                    # dummy frame holding the signals without frame, see dump
+                    new_frame.arbitration_id.extended = True
+                    new_frame.arbitration_id.id = 0x40000000
+                elif extended == 'X':
+                    # the identifier is stored as plain number, the format in the 'X'/'S' column
+                    new_frame.arbitration_id = canmatrix.ArbitrationId(int(arb_id), extended=True)
                 else:
                     new_frame.arbitration_id = canmatrix.ArbitrationId.from_compound_integer(int(arb_id))
                 #   Frame(int(Id), name, size, transmitter))
@@ -304,7 +311,7 @@ def load(f, **options):  # type: (typing.IO, **typing.Any) -> canmatrix.CanMatri
             frame.update_receiver()
     db.enum_attribs_to_values()
     free_signals_dummy_frame = db.frame_by_name("VECTOR__INDEPENDENT_SIG_MSG")
-    if free_signals_dummy_frame is not None and free_signals_dummy_frame.arbitration_id == 0x40000000:
+    if free_signals_dummy_frame is not None and free_signals_dummy_frame.arbitration_id.id == 0x40000000:
         db.signals = free_signals_dummy_frame.signals
         db.del_frame(free_signals_dummy_frame)
     return db
